@@ -614,6 +614,14 @@ class StoreSim:
                                           else G._gen_scalar(rng, dt, False))
             setattr(traj, fld, SpeciesValues({Species[x]: vals[Species[x]] for x in names}))
         spec2 = dict(spec, species={k: list(v) for k, v in new_map.items()})
+        if spec.get('fid') is not None:
+            # the caller gives the object a new identifier as well (identifiers are unique across the
+            # stores of a group, which may be merged later)
+            newfid = op['reuse'].get('fid')
+            if newfid is None or any(newfid in f_.ids() for f_ in self.files.values()):
+                return None
+            traj.flight_id = newfid
+            spec2['fid'] = newfid
         self.probes['add_reused_object_more_species'] += 1
         return traj, spec2
 
@@ -1038,7 +1046,9 @@ class StoreSim:
         elif op.get('via') == 'ctor_enum':
             def ctor(**k):
                 return TrajectoryStore(mode=TrajectoryStore.FileMode(mode), **k)
-        op['cache'] = self.eff_cache(op['cache'], self._visible_for(f, assoc_names), f.specs)
+        # every field set the session will see counts for the size estimate - also one that only an
+        # associated file with a recomputed version provides
+        op['cache'] = self.eff_cache(op['cache'], self._resolve(f, assoc_names, False)[0], f.specs)
         base_arg = self.fpath(f)
         if op.get('path_as') == 'Path':
             import pathlib
@@ -1083,7 +1093,7 @@ class StoreSim:
             return None
         assoc_names = [a for a, _ in list(f.assoc) + list(f.extra_assoc) if not f.assoc_where.get(a)]
         info = f.__dict__.get('reject_info')
-        op['cache'] = self.eff_cache(op['cache'], self._visible_for(f, assoc_names), f.specs)
+        op['cache'] = self.eff_cache(op['cache'], self._resolve(f, assoc_names, False)[0], f.specs)
         try:
             store = TrajectoryStore.open(base_file=self.fpath(f), cache_size_mb=op['cache'],
                                          **self._open_kwargs(f, assoc_names))
